@@ -197,7 +197,10 @@ pub fn pattern_matches(pattern: &str, key: &str) -> bool {
             pattern.next().map(KeySegment::from),
             key.next().map(KeySegment::from),
         ) {
-            (None, None) | (Some(KeySegment::MultiWildcard), Some(_)) => return true,
+            (None, None) => return true,
+            // a multi-level wildcard covers the rest of the key only where it is valid, i.e. as the
+            // last segment of the granted pattern
+            (Some(KeySegment::MultiWildcard), Some(_)) => return pattern.next().is_none(),
             (None, _) | (_, None) => return false,
             (Some(pattern_segment), Some(key_segment)) => {
                 if (pattern_segment == KeySegment::Wildcard
